@@ -4,8 +4,9 @@
 //   1 r fam args*        build an object of family `fam` (codes in serde_fams.hpp) in register r; R: 1 state_class image_size
 //   2 r seg*             C09 round trip of r (sub-check flags, see serde_core.hpp op_roundtrip); seg = follow-up history
 //   3 r                  C09 header check (h in 1,7,8,64), guarded
-//   4 r path start       C11 every strict prefix from length `start` (path 0 bytes, 1 stream, 2 wrap, 3 stream with exceptions on)
-//   5 r path start       C11 preamble corruption from index `start` (index = position*8 + replacement)
+//   4 r path dense [max] C11 every strict prefix (images larger than dense+64: first `dense`, last 64 and `dense` evenly spaced lengths); path 0 bytes, 1 stream,
+//                        2 wrap, 3 stream with exceptions on; the loop stops after `max` offences (default 24)
+//   5 r path start [max] C11 preamble corruption from index `start` (index = position*8 + replacement)
 //   7 r                  printable observation of r
 //   8 r                  image bytes of r
 //   9 r kind             legacy image of r's content synthesised from the documented layout, read back on all paths
@@ -86,8 +87,8 @@ static void handler(const Line& t, Out& o) {
     op_roundtrip(get(t.at(1)), seg, [](int k) { reseed(777 + (uint64_t)k); }, o);
     break; }
   case 3: op_header(get(t.at(1)), o); break;
-  case 4: op_prefixes(get(t.at(1)), (int)t.at(2), (long)arg(t, 3), o); break;
-  case 5: op_corrupt(get(t.at(1)), (int)t.at(2), (long)arg(t, 3), o); break;
+  case 4: op_prefixes(get(t.at(1)), (int)t.at(2), (long)arg(t, 3), o, (size_t)arg(t, 4, 24)); break;
+  case 5: op_corrupt(get(t.at(1)), (int)t.at(2), (long)arg(t, 3), o, (size_t)arg(t, 4, 24)); break;
   case 7: { Line l; get(t.at(1)).observe(l, 0); o.R(get(t.at(1)).state_class()); for (I v : l) o.R(v); break; }
   case 8: { Bytes b = get(t.at(1)).ser(0); for (uint8_t c : b) o.R(c); break; }
   case 9: {
@@ -122,6 +123,11 @@ static void handler(const Line& t, Out& o) {
   }
 }
 
+extern "C" void __sanitizer_symbolize_pc(void* pc, const char* fmt, char* out_buf, size_t out_buf_size);
+
 int main(int argc, char** argv) {
+  // the guarded loops fork; a child that dies with a sanitizer report symbolizes its stack, which parses the debug information of
+  // this (large) binary: done once here, the parsed tables are inherited by every child
+  { char buf[512]; __sanitizer_symbolize_pc(reinterpret_cast<void*>(&handler), "%f %s:%l", buf, sizeof buf); }
   return vh::run_main(argc, argv, [] { regs.clear(); }, handler);
 }
